@@ -233,15 +233,49 @@ DerivedBadNames(x) == {x.derived[k].name : k \in DerivedBad(x)}
 CffBadIndexes(x) == IF x.has.cff THEN {x.cffw.indexes[k].name : k \in {j \in 1 .. Len(x.cffw.indexes) : ~CffIndexOK(x.cffw.indexes[j])}}
                     ELSE {}
 
+\* ---- collection members: the table set belongs to the member that was asked for ---------
+\* A collection (WOFF2 `ttcf` flavour, OpenType TTC) holds several fonts; tables may be shared between members
+\* or private to one.  Every clause above judges a table set against ITS OWN maxp / hhea / head, so it holds
+\* for member N only if the reader looked up member N's tables for every quantity it needs (numGlyphs,
+\* numberOfHMetrics, indexToLocFormat, the glyf / loca / hmtx directory entries).  The collections are written by
+\* the harness, so what each member consists of is a harness INPUT: x.member =
+\*   [is, container, index, members,
+\*    fields : Seq([name, want, got])            numGlyphs, nHM, locFormat, upem: prescribed / read from the table set
+\*    tables : Seq([tag, want, got, rebuilt])]   identity <<hash hi, hash lo, length>> of the member's own table /
+\*                                               of the table found (<<-1,-1,-1>> = absent); rebuilt = the operation
+\*                                               re-serialises that table (judged by the clauses above instead)
+\* What an operation has to hand on unchanged:
+\*   woff2 (table set reconstructed for member N) and whole_font: every field, every table that is not rebuilt, no
+\*     table the member does not have.  Dev_LocaUpgrade: a reconstructed short loca may come back long when the
+\*     rebuilt glyf table has reached the end of the short format's range (>= 131070 bytes);
+\*   instance: numGlyphs, unitsPerEm;   subset: unitsPerEm, numGlyphs only shrinks.
+MemberFieldOK(x, f) ==
+  CASE x.op \in {"woff2", "whole_font"} ->
+         IF f.name = "locFormat"
+         THEN \/ f.got = f.want
+              \/ (x.op = "woff2" /\ f.want = 0 /\ f.got = 1 /\ x.built.loca /\ x.glyfLen >= 131070)
+         ELSE f.got = f.want
+    [] x.op = "instance" -> (f.name \in {"numGlyphs", "upem"} => f.got = f.want)
+    [] x.op = "subset"   -> /\ (f.name = "upem" => f.got = f.want)
+                            /\ (f.name = "numGlyphs" => f.got <= f.want)
+    [] OTHER -> TRUE
+MemberTableOK(x, t) == (x.op \in {"woff2", "whole_font"} /\ ~t.rebuilt) => t.got = t.want
+MemberBadFields(x) == {k \in 1 .. Len(x.member.fields) : ~MemberFieldOK(x, x.member.fields[k])}
+MemberBadTables(x) == {k \in 1 .. Len(x.member.tables) : ~MemberTableOK(x, x.member.tables[k])}
+MemberOK(x) == x.member.is => (MemberBadFields(x) = {} /\ MemberBadTables(x) = {})
+MemberBadNames(x) ==
+  IF x.member.is THEN {x.member.fields[k].name : k \in MemberBadFields(x)} \cup {x.member.tables[k].tag : k \in MemberBadTables(x)}
+  ELSE {}
+
 CrossTableOK(x) == /\ HmtxOK(x) /\ LocaOK(x) /\ GlyphsOK(x) /\ LsbOK(x) /\ CffOK(x) /\ CmapOK(x) /\ PostOK(x) /\ ReloadOK(x)
-                   /\ DerivedOK(x) /\ VmtxOK(x) /\ CffStructOK(x)
+                   /\ DerivedOK(x) /\ VmtxOK(x) /\ CffStructOK(x) /\ MemberOK(x)
 CrossViolated(x) ==
   (IF HmtxOK(x) THEN {} ELSE {"HmtxOK"}) \cup (IF LocaOK(x) THEN {} ELSE {"LocaOK"})
   \cup (IF CffOK(x) THEN {} ELSE {"CffOK"}) \cup (IF CmapOK(x) THEN {} ELSE {"CmapOK"})
   \cup (IF PostOK(x) THEN {} ELSE {"PostOK"}) \cup (IF ReloadOK(x) THEN {} ELSE {"ReloadOK"})
   \cup (IF GlyphsOK(x) THEN {} ELSE {"GlyphsOK"}) \cup (IF LsbOK(x) THEN {} ELSE {"LsbOK"})
   \cup (IF DerivedOK(x) THEN {} ELSE {"DerivedOK"}) \cup (IF VmtxOK(x) THEN {} ELSE {"VmtxOK"})
-  \cup (IF CffStructOK(x) THEN {} ELSE {"CffStructOK"})
+  \cup (IF CffStructOK(x) THEN {} ELSE {"CffStructOK"}) \cup (IF MemberOK(x) THEN {} ELSE {"MemberOK"})
 
 ---------------------------------------------------------------------------
 \* MODEL of FontBuilder: tables keyed by tag (a later add of the same tag replaces the earlier
